@@ -17,6 +17,8 @@ mod scheduler;
 mod signal;
 mod store;
 mod utils;
+#[cfg(acts_verif)]
+pub mod verif;
 
 #[cfg(test)]
 mod tests;
